@@ -1,10 +1,11 @@
 /-
   C11 — Incentive contract: staked LP is held one-for-one and returned to its owner.
-  Property theorems only (helpers in WW/Proofs/{Incentive,Flows}.lean). The model `WW.Inc.step` is the
+  Property theorems only (helpers in WW/Proofs/{Incentive,Flows,Ledger,FlowSums,ClaimLedger,PosDelta,HistKeys,
+  FlowDelta,FlowBacked,Backed,Custody,CustodyHist,FlowExact,HelperKeeps,PosKeys}.lean). The model `WW.Inc.step` is the
   replica of the incentive contract + frontend helper path (engine `incentive`), following the repaired
   code (expand_flow dispatches its TransferFrom; flow reset keeps the original amount).
 -/
-import WW.Proofs.Snapshot
+import WW.Proofs.PosKeys
 namespace WW.C11
 open WW WW.Gen WW.Inc
 
@@ -16,17 +17,121 @@ def positionsOf (s : St) (us : List Addr) : Nat :=
 def flowFunds (s : St) (a : Nat) : Nat :=
   ((s.flows.filter (fun f => f.asset = a)).map (fun f => f.funded - f.claimed)).sum
 
-/-- The custody equation, full strength (the statement of the property): over every history from a
-    fresh contract, with `us` listing every address that ever held a position, and provided nobody
-    attaches LP-denom funds the contract did not ask for (`NoStrayLp`: the only such path in the handlers
-    is an over-paid flow fee in the LP denom with a cw20 flow asset, which `open_flow` keeps).
-    NOT proved as a whole-history theorem (missing part: the induction through `claim` — that the
-    transfer messages of `claimFlows` add up to the increase of the LP-asset flows' `claimed` — and
-    through `open_flow` / `expand_flow` on LP-asset flows). It is evaluated after every operation of every
-    generated history on the real contracts by the monitor `C11:custody_eq`. The per-operation theorems
-    below are the position half of that induction. -/
-def CustodyEq (c : Cfg) (s : St) (us : List Addr) : Prop :=
-  balOf s INC 0 = positionsOf s us + flowFunds s 0
+/-- The custody equation (the statement of the property): the contract's LP balance is exactly everything
+    staked (`staked s` = the open and closed positions of ALL addresses, summed over the two storage maps)
+    plus the unclaimed funds of the flows denominated in the LP asset, plus `kept` — LP-denom funds that
+    were attached to calls without being asked for (zero unless somebody donates; see `strayOf`). -/
+def CustodyEq (s : St) (kept : Nat) : Prop :=
+  balOf s INC 0 = staked s + flowFunds s 0 + kept
+
+theorem flowFunds_eq (s : St) (a : Nat) : flowFunds s a = ffSum a s.flows := (ffSum_eq a s.flows).symm
+
+/-- **custody_eq**, counted form, over ALL histories: for every sequence of operations applied to a freshly
+    instantiated contract — senders other than the contract itself (`SendersOk`), attached coins with
+    distinct denoms (`OffersOk`), epochs that never go back (`EpochsFrom`), otherwise arbitrary (any
+    receivers, amounts, durations, failed operations, helper deposits, flows in the LP asset with
+    expansions, resets, claims and closes) — the contract's LP balance equals
+    what it held at instantiation + everything staked + the unclaimed funds of the LP-asset flows
+    + `keptLp`, the LP-denom funds attached to successful calls that did not ask for them. `keptLp` adds
+    `strayOf` per successful operation: LP coins attached to `claim` / `withdraw` / `close_position` /
+    `snapshot` / `close_flow` / flow operations in other assets (donations), and — the recorded known
+    finding C11-lp-denom-fee-overpaid-kept — the over-paid part of an `open_flow` fee charged in a native
+    LP denom when the flow asset is a cw20 token (a native flow asset gets the excess refunded). -/
+theorem custody_eq_counted (c : Cfg) (e0 : Nat) (bal : Bal) (ops : List (Env × Op))
+    (hs : SendersOk ops) (ho : OffersOk ops) (he : EpochsFrom e0 ops) :
+    CustodyEq (reach c (init e0 bal) ops) (balOf (init e0 bal) INC 0 + keptLp c (init e0 bal) ops) := by
+  obtain ⟨ep', h⟩ := reach_custody (c := c) ops (init e0 bal) e0 _ (init_CInv e0 bal) hs ho he
+  have hb := h.bal
+  unfold owed at hb
+  simp only [if_true] at hb
+  unfold CustodyEq
+  rw [flowFunds_eq]
+  omega
+
+theorem sum_map_add (us : List Addr) (f g : Addr → Nat) :
+    (us.map (fun u => f u + g u)).sum = (us.map f).sum + (us.map g).sum := by
+  induction us with
+  | nil => rfl
+  | cons u t ih => simp only [List.map_cons, List.sum_cons, ih]; omega
+
+/-- `staked` is the sum of the per-address position amounts: over ALL histories, for any duplicate-free
+    list `us` of addresses containing every address that has an entry in the position maps (every address
+    that ever held a position), `Σ_{u ∈ us} (Σ open(u) + Σ closed(u)) = staked`. So the custody theorems
+    read literally "LP balance = Σ open + Σ closed + Σ unclaimed LP-flow funds". -/
+theorem staked_eq_positionsOf (c : Cfg) (e0 : Nat) (bal : Bal) (ops : List (Env × Op)) (us : List Addr)
+    (hus : us.Nodup)
+    (hcov : ∀ u, (u ∈ keysOf (reach c (init e0 bal) ops).openPos
+                  ∨ u ∈ keysOf (reach c (init e0 bal) ops).closedPos) → u ∈ us) :
+    positionsOf (reach c (init e0 bal) ops) us = staked (reach c (init e0 bal) ops) := by
+  have hP := reach_PKeys (c := c) (init_PKeys e0 bal) ops
+  unfold positionsOf staked
+  rw [sum_map_add]
+  have h1 := sum_over_addresses openSum (d := []) rfl _ us hP.openK hus (fun k hk => hcov k (Or.inl hk))
+  have h2 := sum_over_addresses closedSum (d := []) rfl _ us hP.closedK hus (fun k hk => hcov k (Or.inr hk))
+  unfold openOf closedOf
+  rw [h1, h2]
+
+/-- no operation of the history carries LP-denom funds its handler does not ask for -/
+def NoStrayLp (c : Cfg) (ops : List (Env × Op)) : Prop := ∀ p ∈ ops, strayOf c p.1 p.2 = 0
+
+theorem keptLp_zero {c : Cfg} : ∀ (ops : List (Env × Op)) (s : St), NoStrayLp c ops → keptLp c s ops = 0 := by
+  intro ops
+  induction ops with
+  | nil => intro s _; rfl
+  | cons p t ih =>
+    intro s h
+    unfold keptLp
+    rw [ih _ (fun q hq => h q (List.mem_cons_of_mem _ hq)), h p List.mem_cons_self]
+    split <;> rfl
+
+/-- **custody_eq**, over ALL histories without stray LP funds, from a contract that starts with no LP:
+    LP balance = Σ open positions + Σ closed positions + Σ unclaimed funds of the LP-asset flows, exactly,
+    after every operation. -/
+theorem custody_eq (c : Cfg) (e0 : Nat) (bal : Bal) (ops : List (Env × Op))
+    (hs : SendersOk ops) (ho : OffersOk ops) (he : EpochsFrom e0 ops) (hk : NoStrayLp c ops)
+    (h0 : balOf (init e0 bal) INC 0 = 0) :
+    CustodyEq (reach c (init e0 bal) ops) 0 := by
+  have h := custody_eq_counted c e0 bal ops hs ho he
+  rw [keptLp_zero ops _ hk, h0] at h
+  exact h
+
+/-- **custody, `≥` half with no assumption on epochs, coins or stray funds**: over ALL histories (senders
+    other than the contract itself) the LP balance covers everything staked plus the LP-asset flows. -/
+theorem custody_ge (c : Cfg) (e0 : Nat) (bal : Bal) (ops : List (Env × Op)) (hs : SendersOk ops) :
+    staked (reach c (init e0 bal) ops) + flowFunds (reach c (init e0 bal) ops) 0
+      ≤ balOf (reach c (init e0 bal) ops) INC 0 := by
+  have h := (reach_backed (c := c) (init_WInv e0 bal) (init_FInv e0 bal) (init_backed e0 bal) ops hs).2 0
+  unfold owed at h
+  simp only [if_true] at h
+  rw [flowFunds_eq]
+  omega
+
+/-- the custody equation as a one-transaction statement from any state satisfying the invariant
+    (`CInv s ep K`: weights, flow ids, asset-history keys ≤ `ep + 1`, creators, and the equation with `K`) -/
+theorem custody_eq_step {c : Cfg} {s s' : St} {e : Env} {op : Op} {K : Nat} (hI : CInv s e.epoch K)
+    (hs : e.sender ≠ INC) (hn : (keysOf e.offers).Nodup) (h : step c s e op = .ok s') :
+    balOf s' INC 0 = staked s' + flowFunds s' 0 + (K + strayOf c e op) := by
+  have hb := (step_custody hI hs hn h).bal
+  unfold owed at hb
+  simp only [if_true] at hb
+  rw [flowFunds_eq]
+  omega
+
+/-- **helper_keeps_nothing**: after a deposit through the frontend helper (any state, any depositor other
+    than the helper itself) the helper holds no LP at all — its whole LP balance went into the depositor's
+    position — and its balance of every other asset is what it was before (the deposited assets were passed
+    on to the pair in full). -/
+theorem helper_keeps_nothing {c : Cfg} {s s' : St} {e : Env} {a0 a1 dur : Nat} (hs : e.sender ≠ HELPER)
+    (h : step c s e (.helperDeposit a0 a1 dur) = .ok s') :
+    balOf s' HELPER 0 = 0 ∧ ∀ a, a ≠ 0 → balOf s' HELPER a = balOf s HELPER a :=
+  step_helper_keeps_nothing hs h
+
+/-- … in particular after every successful helper deposit at the end of ANY history -/
+theorem helper_keeps_nothing_reach (c : Cfg) (e0 : Nat) (bal : Bal) (ops : List (Env × Op)) (e : Env)
+    (a0 a1 dur : Nat) (s' : St) (hs : e.sender ≠ HELPER)
+    (h : step c (reach c (init e0 bal) ops) e (.helperDeposit a0 a1 dur) = .ok s') :
+    balOf s' HELPER 0 = 0 :=
+  (step_helper_keeps_nothing hs h).1
 
 /-- **withdraw_exact**: a withdrawal (no funds attached) pays the sender exactly the sum of the sender's
     closed positions, out of the contract's LP balance; afterwards the sender has no closed position;
@@ -63,6 +168,47 @@ theorem lp_funds_validated {c : Cfg} {e : Env} {amount : Nat} {m : List Msg} (h 
       ∨ (c.native 0 = false ∧ amount ≤ aget (allowOf c e.offers) 0 ∧ m = [.pull e.sender INC 0 amount])) :=
   validateFunds_spec h
 
+/-- **withdraw_exact** at the end of ANY history: whatever happened before, a withdrawal pays the sender
+    exactly the sum of the sender's closed positions out of the contract's LP balance. -/
+theorem withdraw_exact_reach (c : Cfg) (e0 : Nat) (bal : Bal) (ops : List (Env × Op)) (e : Env) (s' : St)
+    (hoff : e.offers = []) (hne : e.sender ≠ INC)
+    (h : step c (reach c (init e0 bal) ops) e .withdraw = .ok s') :
+    balOf s' e.sender 0 = balOf (reach c (init e0 bal) ops) e.sender 0
+        + closedSum (closedOf (reach c (init e0 bal) ops) e.sender)
+    ∧ balOf s' INC 0 + closedSum (closedOf (reach c (init e0 bal) ops) e.sender)
+        = balOf (reach c (init e0 bal) ops) INC 0
+    ∧ closedOf s' e.sender = [] :=
+  let r := step_withdraw hoff hne h
+  ⟨r.1, r.2.1, r.2.2.1⟩
+
+/-- **position_only_on_receipt** as a whole transaction in ANY state (hence at the end of any history): an
+    accepted `open_position` / `expand_position` raises the staked total by exactly the stated amount and
+    the contract's LP balance by exactly the same amount (attached or pulled from the sender; nothing
+    leaves the contract); no other handler raises the staked total (`close_position` moves a position
+    from open to closed unchanged, `withdraw` lowers it by what it pays). -/
+theorem position_only_on_receipt_step {c : Cfg} {s s' : St} {e : Env} {amount dur : Nat} {recv : Option Addr}
+    (hs : e.sender ≠ INC) (h : step c s e (.openPos amount dur recv) = .ok s') :
+    staked s' = staked s + amount ∧ balOf s' INC 0 = balOf s INC 0 + amount ∧ s'.flows = s.flows := by
+  unfold step at h
+  simp only at h
+  obtain ⟨b, hb, h⟩ := bind_eq_ok h
+  obtain ⟨⟨s1, msgs⟩, h1, h⟩ := bind_eq_ok h
+  obtain ⟨b1, hb1, h⟩ := bind_eq_ok h
+  injection h with h
+  subst h
+  have h1' : openPosition c ({ s with bal := b } : St) e amount dur recv = .ok (s1, msgs) := h1
+  obtain ⟨d1, _, d3, d4, d5⟩ := openPosition_delta h1'
+  obtain ⟨v1, v2⟩ := validateFunds_ledger hs d5
+  have t1 := attachFunds_eff (x := e.sender) (y := INC) INC 0 _ _ _ hb
+  rw [if_neg (fun hh => hs hh.1), if_pos ⟨rfl, hs⟩] at t1
+  have t2 := applyMsgs_eff INC 0 _ _ _ _ hb1
+  rw [v1 0, d3] at t2
+  simp only at t2
+  refine ⟨d4, ?_, d1⟩
+  unfold balOf
+  simp only
+  omega
+
 /-- non-vacuity: alice opens 1000 for bob (cw20 LP), bob closes and withdraws: bob — not alice — gets the
     1000 back, the contract ends with 0 -/
 example :
@@ -72,5 +218,17 @@ example :
                          ({ epoch := 1, time := 200, sender := 2, offers := [] }, .closePos 86400),
                          ({ epoch := 2, time := 300, sender := 2, offers := [] }, .withdraw)]
     (balOf s 1 0, balOf s 2 0, balOf s INC 0, openOf s 2, closedOf s 2) = (4000, 1007, 0, [], []) := by decide
+
+/-- non-vacuity of the hypotheses of `custody_eq` (native LP = fee denom, an LP-asset flow, a position,
+    a claim): senders, coins, epochs and `NoStrayLp` hold and the equation reads 1 000 + 500 000 = 501 000 -/
+example :
+    let c : Cfg := { lpNative := true, feeAsset := 0, feeAmt := 1000, maxFlows := 3, buffer := 5, minDur := 86400, maxDur := 31556926 }
+    let ops : List (Env × Op) :=
+      [({ epoch := 1, time := 100, sender := 1, offers := [(0, 1000)] }, .openPos 1000 86400 none),
+       ({ epoch := 1, time := 100, sender := 4, offers := [(0, 501000)] }, .openFlow 0 501000 none (some 10)),
+       ({ epoch := 2, time := 200, sender := 1, offers := [] }, .snapshot)]
+    let s := reach c (init 1 [((1, 0), 5000), ((4, 0), 600000)]) ops
+    (∀ p ∈ ops, p.1.sender ≠ INC) ∧ (∀ p ∈ ops, strayOf c p.1 p.2 = 0)
+    ∧ (balOf s INC 0, staked s, flowFunds s 0, balOf s COLLECTOR 0) = (501000, 1000, 500000, 1000) := by decide
 
 end WW.C11
